@@ -9,6 +9,7 @@ package main
 // so the explorer places every other reader's steps inside a running query.
 
 import (
+	"context"
 	"database/sql"
 	"fmt"
 	"sort"
@@ -17,6 +18,7 @@ import (
 	"time"
 
 	"github.com/zeromicro/go-zero/core/stores/cache"
+	"github.com/zeromicro/go-zero/core/stores/monc"
 	"github.com/zeromicro/go-zero/core/stores/sqlc"
 	"github.com/zeromicro/go-zero/core/stores/sqlx"
 	"github.com/zeromicro/go-zero/core/syncx"
@@ -25,9 +27,28 @@ import (
 )
 
 type readerSpec struct {
-	api string // take | qrow | qidx (QueryRowIndex: index key -> primary key -> row; always row k1)
-	key string // k1 | k2
+	api  string // take | qrow | qidx (QueryRowIndex: index key -> primary key -> row; always row k1)
+	key  string // k1 | k2
+	conn int    // multi-connection systems: which of the two CachedConn / cache.Cache values the reader goes through
 }
+
+// Systems under the readers. sysNode is one cache node with its own barrier (Take on the node,
+// QueryRow* through one CachedConn over it). The others build TWO connections the way services
+// do - the same model constructed twice, or two models sharing a cache key - from ONE cache
+// configuration; all of them are handed one shared barrier (sqlc keeps a package-wide SingleFlight
+// for exactly that reason), so readers that go through different connections still have to line up
+// behind one database query per key.
+const (
+	sysNode      = ""
+	sysNewConn2  = "2x-sqlc.NewConn/2-node-conf"  // sqlc.NewConn(db, conf) twice, conf = two-node cluster: cache.New -> cacheCluster
+	sysNewConn1  = "2x-sqlc.NewConn/1-node-conf"  // ... conf with a single node: cache.New's NewNode shortcut
+	sysNodeConn  = "2x-sqlc.NewNodeConn"          // sqlc.NewNodeConn(db, rds) twice over one redis
+	sysCacheNew2 = "2x-cache.New/2-node-conf"     // cache.New(conf, barrier, ...) twice with the caller's own barrier
+	sysMoncNew2  = "2x-monc.NewModel/2-node-conf" // monc.NewModel(uri, db, coll, conf) twice (readers: Model.FindOne)
+	sysMoncNode  = "2x-monc.NewNodeModel"         // monc.NewNodeModel(uri, db, coll, rds) twice over one redis
+)
+
+type readerCtxKey struct{} // carries the reader's name to the harness collection behind monc.Model.FindOne
 
 // database behaviour of a scenario
 const (
@@ -70,6 +91,10 @@ func readersScenarioPK(name, mode, shapeName string, readers []readerSpec) vx.Sc
 	return readersScenarioX(name, mode, shapeName, "", readers)
 }
 
+func readersScenarioX(name, mode, shapeName, fault string, readers []readerSpec) vx.Scenario {
+	return readersScenarioSys(name, sysNode, mode, shapeName, fault, readers)
+}
+
 // spyFlight wraps the SingleFlight handed to the cache node: it only logs who enters and leaves
 // the barrier and whether the call led its flight (DoEx's own `fresh` result).
 type spyFlight struct{ inner syncx.SingleFlight }
@@ -96,13 +121,21 @@ var shortCK = map[string]string{keyP1: "p1", keyP2: "p2", keyIx: "ix"}
 
 func isStoreErr(res string) bool { return strings.HasPrefix(res, "err:ERR_c06") }
 
-// readersScenarioX: fault = "" | faultOutage | faultDel adds fault / writer threads whose single
-// step the explorer places at every point of the readers' flights.
-func readersScenarioX(name, mode, shapeName, fault string, readers []readerSpec) vx.Scenario {
+// readersScenarioSys: fault = "" | faultOutage | faultDel adds fault / writer threads whose single
+// step the explorer places at every point of the readers' flights (sysNode only).
+func readersScenarioSys(name, sys, mode, shapeName, fault string, readers []readerSpec) vx.Scenario {
 	sh := shapeByName(shapeName)
+	backendOf := func() *backend {
+		if sys == sysNewConn2 || sys == sysNewConn1 || sys == sysCacheNew2 || sys == sysMoncNew2 {
+			return env.cluster
+		}
+		return env.single
+	}
 	body := func() {
 		shape = sh
+		setConf(mainConf)
 		env.reset()
+		be := backendOf()
 		if mode == cacheDown {
 			env.setOutage(true)
 		}
@@ -111,7 +144,7 @@ func readersScenarioX(name, mode, shapeName, fault string, readers []readerSpec)
 			barrier = spyFlight{barrier}
 			env.cmdHook = func(cmd, key, reply string) {
 				if vsched.Managed() {
-					ck := shortCK[env.single.canonical(key)]
+					ck := shortCK[be.canonical(key)]
 					if ck == "" {
 						ck = key
 					}
@@ -121,14 +154,63 @@ func readersScenarioX(name, mode, shapeName, fault string, readers []readerSpec)
 		}
 		nq := 0
 		gauges := map[string]*vsched.Var{"p1": {}, "p2": {}, "ix": {}}
-		db := newFakeDB()
 		opts := []cache.Option{cache.WithExpiry(expiry), cache.WithNotFoundExpiry(notFoundExpiry)}
-		// one node, one barrier: Take goes to the node, QueryRow through a CachedConn over the same node
-		node := cache.NewNode(env.rds, barrier, env.st, sql.ErrNoRows, opts...)
-		cc := sqlc.NewConnWithCache(db, node)
+		// per connection: its database handle, the cache.Cache for Take readers, the CachedConn
+		dbs := [2]*fakeDB{newFakeDB(), newFakeDB()}
+		var nodes [2]cache.Cache
+		var ccs [2]sqlc.CachedConn
+		var models [2]*monc.Model
+		nfErr := error(sql.ErrNoRows) // the not-found error the system is configured with
+		var query func(me, key, ck string, primary, v any) error
+		switch sys {
+		case sysNode:
+			// one node, one barrier: Take goes to the node, QueryRow through a CachedConn over the same node
+			dbs[1] = dbs[0]
+			nodes[0] = cache.NewNode(env.rds, barrier, env.st, sql.ErrNoRows, opts...)
+			ccs[0] = sqlc.NewConnWithCache(dbs[0], nodes[0])
+			nodes[1], ccs[1] = nodes[0], ccs[0]
+		case sysNewConn2, sysNewConn1:
+			conf := env.conf
+			if sys == sysNewConn1 {
+				conf = conf[:1]
+			}
+			shared := sqlc.VerifFreshSingleFlight() // sqlc's package-wide barrier, fresh for this execution
+			for i := range ccs {
+				ccs[i] = sqlc.NewConn(dbs[i], conf, opts...)
+				// a Take reader stands for another model over the same configuration and barrier
+				nodes[i] = cache.New(conf, shared, env.st, sql.ErrNoRows, opts...)
+			}
+		case sysNodeConn:
+			shared := sqlc.VerifFreshSingleFlight()
+			for i := range ccs {
+				ccs[i] = sqlc.NewNodeConn(dbs[i], env.rds, opts...)
+				nodes[i] = cache.NewNode(env.rds, shared, env.st, sql.ErrNoRows, opts...)
+			}
+		case sysCacheNew2:
+			for i := range ccs {
+				nodes[i] = cache.New(env.conf, barrier, env.st, sql.ErrNoRows, opts...)
+				ccs[i] = sqlc.NewConnWithCache(dbs[i], nodes[i])
+			}
+		case sysMoncNew2, sysMoncNode:
+			nfErr = monc.ErrNotFound
+			shared := monc.VerifFreshSingleFlight() // monc's package-wide barrier, fresh for this execution
+			for i := range models {
+				coll := &fakeColl{db: dbs[i], onFind: func(ctx context.Context, k string, v *Row) error {
+					return query(ctx.Value(readerCtxKey{}).(string), k, ckOfRow(k), nil, v)
+				}}
+				models[i] = buildMoncModel(sys == sysMoncNew2, true, coll, opts)
+				if sys == sysMoncNew2 {
+					nodes[i] = cache.New(env.conf, shared, env.st, nfErr, opts...)
+				} else {
+					nodes[i] = cache.NewNode(env.rds, shared, env.st, nfErr, opts...)
+				}
+			}
+		default:
+			panic("unknown system " + sys)
+		}
 		// key: the row the reader is after; ck: the cache key this query loads; primary: the argument
 		// of a primary-key query that the cached layer supplied (nil: the caller's own typed key)
-		query := func(me, key, ck string, primary, v any) error {
+		query = func(me, key, ck string, primary, v any) error {
 			nq++
 			n := nq
 			id := fmt.Sprintf("q%d", n)
@@ -161,7 +243,7 @@ func readersScenarioX(name, mode, shapeName, fault string, readers []readerSpec)
 				err = fmt.Errorf("dberr:%s", id)
 				res = err.Error()
 			case mode == dbAbsent || row == "":
-				err = sql.ErrNoRows
+				err = nfErr
 				res = "notfound"
 			default:
 				*(v.(*Row)) = newRow(row, id)
@@ -177,7 +259,8 @@ func readersScenarioX(name, mode, shapeName, fault string, readers []readerSpec)
 			vsched.GoNamed(fmt.Sprintf("reader%d", i), false, func() {
 				defer wg.Done()
 				me := fmt.Sprintf("r%d", i)
-				ck := env.single.real(cacheKeyOf(rs.key))
+				ck := be.real(cacheKeyOf(rs.key))
+				node, cc, db := nodes[rs.conn], ccs[rs.conn], dbs[rs.conn]
 				var row Row
 				var err error
 				if fault != "" {
@@ -194,9 +277,11 @@ func readersScenarioX(name, mode, shapeName, fault string, readers []readerSpec)
 						}
 						return query(me, rs.key, ckOfRow(rs.key), nil, v)
 					})
+				case "mfind":
+					err = models[rs.conn].FindOne(context.WithValue(context.Background(), readerCtxKey{}, me), ck, &row, rowFilter{k: rs.key})
 				case "qidx":
 					// keyer / index query / primary query as goctl generates them
-					err = cc.QueryRowIndex(&row, keyIx, func(primary any) string { return fmt.Sprintf("%s%v", keyPrefix, primary) },
+					err = cc.QueryRowIndex(&row, be.real(keyIx), func(primary any) string { return fmt.Sprintf("%s%v", keyPrefix, primary) },
 						func(conn sqlx.SqlConn, v any) (any, error) {
 							if err := query(me, rs.key, "ix", nil, v); err != nil {
 								return nil, err
@@ -215,7 +300,7 @@ func readersScenarioX(name, mode, shapeName, fault string, readers []readerSpec)
 					res = "err:empty-row"
 				case err == nil:
 					res = fmt.Sprintf("err:row-of-other-key(id=%s,v=%s)", row.pk(), row.V)
-				case err == sql.ErrNoRows:
+				case err == nfErr:
 					res = "notfound"
 				case strings.HasPrefix(err.Error(), "dberr:"):
 					res = err.Error()
@@ -249,7 +334,7 @@ func readersScenarioX(name, mode, shapeName, fault string, readers []readerSpec)
 			vsched.GoNamed("invalidate", false, func() {
 				defer wg.Done()
 				vsched.Op("invalidate")
-				node.Del(env.single.real(cacheKeyOf(readers[0].key)))
+				nodes[0].Del(be.real(cacheKeyOf(readers[0].key)))
 			})
 		}
 		wg.Wait()
@@ -263,7 +348,7 @@ func readersScenarioX(name, mode, shapeName, fault string, readers []readerSpec)
 			}
 		}
 		vsched.Log("N %d", gets)
-		vsched.Log("F %s", strings.ReplaceAll(dumpString(env.single.contents()), " ", "|"))
+		vsched.Log("F %s", strings.ReplaceAll(dumpString(be.contents()), " ", "|"))
 	}
 
 	keyOf := map[string]string{}
@@ -574,12 +659,12 @@ func readersScenarioX(name, mode, shapeName, fault string, readers []readerSpec)
 }
 
 func scheduleScenarios(thorough bool) []vx.Scenario {
-	same3 := []readerSpec{{"take", "k1"}, {"qrow", "k1"}, {"qrow", "k1"}}
-	take3 := []readerSpec{{"take", "k1"}, {"take", "k1"}, {"take", "k1"}}
-	two1 := []readerSpec{{"qrow", "k1"}, {"take", "k1"}, {"qrow", "k2"}}
-	idx3 := []readerSpec{{"qidx", "k1"}, {"qidx", "k1"}, {"qidx", "k1"}}  // index key -> primary key -> row
-	idx2q := []readerSpec{{"qidx", "k1"}, {"qidx", "k1"}, {"qrow", "k1"}} // plus a reader of the primary key itself
-	idx2t := []readerSpec{{"qidx", "k1"}, {"take", "k1"}, {"qidx", "k1"}}
+	same3 := []readerSpec{{"take", "k1", 0}, {"qrow", "k1", 0}, {"qrow", "k1", 0}}
+	take3 := []readerSpec{{"take", "k1", 0}, {"take", "k1", 0}, {"take", "k1", 0}}
+	two1 := []readerSpec{{"qrow", "k1", 0}, {"take", "k1", 0}, {"qrow", "k2", 0}}
+	idx3 := []readerSpec{{"qidx", "k1", 0}, {"qidx", "k1", 0}, {"qidx", "k1", 0}}  // index key -> primary key -> row
+	idx2q := []readerSpec{{"qidx", "k1", 0}, {"qidx", "k1", 0}, {"qrow", "k1", 0}} // plus a reader of the primary key itself
+	idx2t := []readerSpec{{"qidx", "k1", 0}, {"take", "k1", 0}, {"qidx", "k1", 0}}
 	sc := []vx.Scenario{
 		readersScenario("3-readers/row-present", dbPresent, same3),
 		readersScenario("3-readers/row-absent", dbAbsent, same3),
@@ -608,7 +693,7 @@ func scheduleScenarios(thorough bool) []vx.Scenario {
 	// faults and invalidations at every point of the readers' flights. Bounds are set per scenario:
 	// 4-5 threads; the two-reader systems are complete at P=2 within seconds, the three-reader ones
 	// run at P=1 (quick) / P=2 (thorough).
-	pair := []readerSpec{{"take", "k1"}, {"qrow", "k1"}}
+	pair := []readerSpec{{"take", "k1", 0}, {"qrow", "k1", 0}}
 	bound := func(sc vx.Scenario, quickP, thoroughP int) vx.Scenario {
 		sc.SetBound, sc.P, sc.T = true, quickP, 0
 		if thorough {
@@ -644,6 +729,44 @@ func scheduleScenarios(thorough bool) []vx.Scenario {
 				sc = append(sc,
 					readersScenarioPK("3-index-readers/pk-"+sh.name+"/row-absent", dbAbsent, sh.name, idx3),
 					readersScenarioPK("3-index-readers/pk-"+sh.name+"/db-fails-once", dbFailOnce, sh.name, idx3))
+			}
+		}
+	}
+	// TWO connections built from one cache configuration, one shared barrier: readers of one uncached
+	// key that go through different CachedConn / cache.Cache / monc.Model values (r0 through the first,
+	// r1 and r2 through the second). Same oracles: at most one query per cache key at a time, everybody
+	// gets that query's result. Appended after the single-connection scenarios (shards start in this
+	// order); bounds per scenario: the two-node systems cost about three times as much per execution.
+	conn3 := []readerSpec{{"qrow", "k1", 0}, {"qrow", "k1", 1}, {"take", "k1", 1}}
+	connIdx := []readerSpec{{"qidx", "k1", 0}, {"qidx", "k1", 1}, {"qrow", "k1", 1}} // index key and primary key live on different nodes
+	connTwo := []readerSpec{{"qrow", "k1", 0}, {"qrow", "k1", 1}, {"qrow", "k2", 0}}
+	mon3 := []readerSpec{{"mfind", "k1", 0}, {"mfind", "k1", 1}, {"take", "k1", 1}}
+	monTwo := []readerSpec{{"mfind", "k1", 0}, {"mfind", "k1", 1}, {"mfind", "k2", 0}}
+	for _, sys := range []string{sysNewConn2, sysNewConn1, sysNodeConn, sysCacheNew2, sysMoncNew2, sysMoncNode} {
+		rd3, rdTwo := conn3, connTwo
+		if sys == sysMoncNew2 || sys == sysMoncNode {
+			rd3, rdTwo = mon3, monTwo
+		}
+		deep := 3 // thorough bound of the system's main scenario
+		if sys == sysCacheNew2 || sys == sysMoncNew2 {
+			deep = 2 // same cacheCluster code as sqlc.NewConn over two nodes, which runs at 3
+		}
+		sc = append(sc, bound(readersScenarioSys("3-readers/"+sys+"/row-present", sys, dbPresent, "small", "", rd3), 2, deep))
+		if sys == sysNewConn2 {
+			sc = append(sc,
+				bound(readersScenarioSys("3-readers/"+sys+"/db-fails-once", sys, dbFailOnce, "small", "", conn3), 2, 2),
+				bound(readersScenarioSys("2-index+1-primary-readers/"+sys+"/row-present", sys, dbPresent, "small", "", connIdx), 2, 2))
+		}
+		if thorough {
+			sc = append(sc,
+				bound(readersScenarioSys("3-readers/"+sys+"/row-absent", sys, dbAbsent, "small", "", rd3), 2, 2),
+				bound(readersScenarioSys("2+1-readers/two-keys/"+sys+"/row-present", sys, dbPresent, "small", "", rdTwo), 2, 2),
+				bound(readersScenarioSys("3-readers/"+sys+"/cache-outage", sys, cacheDown, "small", "", rd3), 2, 2))
+			if sys != sysNewConn2 {
+				sc = append(sc, bound(readersScenarioSys("3-readers/"+sys+"/db-fails-once", sys, dbFailOnce, "small", "", rd3), 2, 2))
+			}
+			if sys == sysNewConn2 || sys == sysNodeConn {
+				sc = append(sc, bound(readersScenarioSys("2-index+1-primary-readers/"+sys+"/pk-huge/db-fails-once", sys, dbFailOnce, "huge", "", connIdx), 2, 2))
 			}
 		}
 	}
